@@ -17,8 +17,28 @@ def _uid(v):
     return attributes.UniqueIdentifier(v)
 
 
-for _c in ("ActivateRequestPayload", "ActivateResponsePayload", "RevokeRequestPayload", "RevokeResponsePayload"):
+for _c in ("ActivateRequestPayload", "ActivateResponsePayload", "RevokeRequestPayload", "RevokeResponsePayload",
+           "DestroyRequestPayload", "DestroyResponsePayload"):
     B.WRAP[(_c, "unique_identifier")] = _uid
 
 B.WRAP[("RevokeRequestPayload", "compromise_occurrence_date")] = \
     lambda v: primitives.DateTime(v, tag=T.COMPROMISE_OCCURRENCE_DATE)
+
+
+# --- Get: the object type names the class of the managed object
+MANAGED = {"Certificate": 1, "SymmetricKey": 2, "PublicKey": 3, "PrivateKey": 4, "SplitKey": 5, "Template": 6,
+           "SecretData": 7, "OpaqueObject": 8}
+G.UNIONS[("GetResponsePayload", "secret")] = sorted(MANAGED)
+
+
+def _get_response(g, v, ver, depth):
+    v["object_type"] = G.num(MANAGED[v["secret"]["_k"]])
+    return v
+
+
+G.HOOKS["GetResponsePayload"] = _get_response
+
+
+# --- Locate: Storage Status Mask is a mask of the bits the version defines (Online 1, Archival 2; 2.0: Destroyed 4)
+G.FIELD_POOL[("LocateRequestPayload", "storage_status_mask")] = \
+    lambda ver: [G.num(x) for x in (range(8) if ver >= 20 else range(4))]
